@@ -1,6 +1,8 @@
 import Rtcm.Lemmas.Bits
 import Rtcm.Lemmas.Decode
 import Rtcm.Props.C10
+import Rtcm.Props.C06
+import Rtcm.Lemmas.Layout
 /-
   C03 — every data field decodes to the value its bits encode, for all message types.
 
@@ -12,10 +14,18 @@ import Rtcm.Props.C10
     the field width and touching nothing else (`C03_plain_field`, `C03_reading_*`);
   * bytes after the last field change nothing (`C03_trailing_bytes`);
   * every definition in the current tables is well-formed (`C03_all_defs_wf`).
-  PARTIAL: the relational "layout" specification (`Shape`) of DESIGN 6-C03 — that the sequence of
-  occurrences produced by the recursive walk is the definition-order layout — is not stated
-  independently of the walk; the walk itself (`decItems`) is validated against the implementation
-  and against the generator's independent layout by the correspondence run.
+  * ROUND TRIP (`C03_layout_roundtrip`, `C03_layout_roundtrip_bytes`): `layout` (Model/Layout.lean)
+    walks a definition taking the raw field values one after the other from a list, assigns each
+    field occurrence its attribute (reading of the raw value times resolution, under the field id
+    and the current group indices), evaluates repeat counts / masks / conditions on what was
+    assigned so far, and records one cell (width, bits) per bit-carrying occurrence.  Parsing any
+    payload that starts with the cells written in that order — in particular the byte string
+    `packBytes cells` — yields exactly the attributes the layout assigned, consumes exactly the sum
+    of the cell widths, and nothing else.
+  The layout walk shares the *per-occurrence* functions (`fieldWidth`, `interp`, `fieldStore`,
+  `fieldSpecial`, `countOf`, `optMatches`) with the parser model; what the theorem adds is that the
+  parser's offset arithmetic and bit extraction put every occurrence on its own cell, for every
+  definition, nesting, count and mask.
 -/
 namespace Rtcm
 
@@ -129,5 +139,50 @@ theorem C03_trailing_bytes (T : Tables) (p ext : Bytes) (l : Nat) (m : Msg)
         simp only [hdec] at h
         injection h with h
         rw [← h]
+
+/-- **Round trip, bit level.**  If laying definition `d` out from the raw values `vals` succeeds
+    with cells `ls.cells`, then the parser run over any payload starting with those cells (packed
+    most-significant first, in definition order) ends in exactly the state the layout assigned:
+    same attributes, same satellite/cell maps, offset = total width of the cells. -/
+theorem C03_layout_roundtrip (id : Ident) (label : Nat) (d : List Item) (vals : List Nat) (ls : LState)
+    (h : layout T id label d vals = .ok ls) :
+    ls.s.off = (pack ls.cells).blen ∧
+    ∀ p, Payload.Prefix (pack ls.cells) p → decItems ⟨T, p, id, label⟩ d [] DState.init = .ok ls.s :=
+  (layout_roundtrip T C06_labels_zero_width id label d vals ls h).2
+
+/-- **Round trip, message level.**  The message constructed from the packed bytes (optionally
+    followed by anything) has exactly the laid-out attributes. -/
+theorem C03_layout_roundtrip_bytes (id : Ident) (label : Nat) (d : List Item) (vals : List Nat) (ls : LState)
+    (ext : Bytes)
+    (hd : getDict T id = some d)
+    (h : layout T id label d vals = .ok ls)
+    (hid : identity (packBytes ls.cells ++ ext) = .ok id) :
+    construct T (some (packBytes ls.cells ++ ext)) label
+      = .ok ⟨packBytes ls.cells ++ ext, label, id, false, ls.s.attrs, true⟩ := by
+  obtain ⟨hfit, _, run⟩ := layout_roundtrip T C06_labels_zero_width id label d vals ls h
+  have hp : Payload.Prefix (pack ls.cells) (Payload.ofBytes (packBytes ls.cells ++ ext)) :=
+    Payload.prefix_trans (prefix_packBytes ls.cells hfit) (ofBytes_prefix _ _)
+  unfold construct
+  simp only [hid, hd, run _ hp]
+
+/-- the cells are written strictly in order: the packed string of a longer layout extends the
+    packed string of a shorter one -/
+theorem C03_cells_in_order (a b : List Cell) (hb : Fits b) : Payload.Prefix (pack a) (pack (a ++ b)) :=
+  prefix_pack_append a b hb
+
+/-- and reading back the cell just written returns its bits -/
+theorem C03_cell_readback (pre : List Cell) (w v : Nat) (h : v < 2 ^ w) :
+    extract (pack (pre ++ [(w, v)])) (pack pre).blen w = some v := by
+  rw [pack_append_singleton]; exact extract_push _ w v h
+
+/-- non-vacuity: a GPS MSM7 with 2 satellites, 2 signals, 4 cells (45 raw values, 565 bits) lays
+    out, all values are consumed, and the identity hypothesis of the message-level theorem holds -/
+def exVals1077 : List Nat :=
+  [1077, 5, 1000, 0, 0, 0, 0, 0, 0, 0, 2 ^ 63 + 1, 2 ^ 31 + 2 ^ 30, 15] ++ [1, 2, 3, 4, 5, 6, 2 ^ 13, 1] ++ List.replicate 24 1
+
+example : (match layout T ⟨1077, none⟩ 1 ((getDict T ⟨1077, none⟩).getD []) exVals1077 with
+    | .ok ls => (ls.vals.length, ls.s.off, ls.cells.length,
+        match identity (packBytes ls.cells) with | .ok id => id.num | _ => 0)
+    | .error _ => (1, 0, 0, 0)) = (0, 565, 45, 1077) := by decide +kernel
 
 end Rtcm
